@@ -16,6 +16,19 @@ pub fn snippet(t: &mut Tape) -> &'static str {
 
 /// token soup / mutated snippets / deep chains
 pub fn gen_text(t: &mut Tape, lexy: bool, max_depth: usize) -> String {
+    if t.chance(1, 3000) {
+        // one token with very many line breaks inside (more than 8 or 16 bits can count), and tokens after it whose
+        // positions depend on the count
+        let n = *t.choose(&[255usize, 256, 257, 1000, 65_535, 65_536, 65_537, 66_000]);
+        let body = "\n".repeat(n);
+        let tail = soup::soup(t, 5, true);
+        return match t.pick(4) {
+            0 => format!("say 1 ({}) {}\nsay 2 +", body, tail),
+            1 => format!("say \"{}\" {}\nsay 2 +", body, tail),
+            2 => format!("x is 5\n({}", body),
+            _ => format!("(a{}b)'s {}\nput into", body, tail),
+        };
+    }
     match t.weighted(&[50, 22, 12, 8, 8]) {
         0 => soup::soup(t, 40, lexy),
         1 => {
